@@ -147,7 +147,7 @@ Spec == Init /\ [][Next]_cur
 \* every name used is an input with a documented length or another derivation
 C17_Closed == Deps(cur) \subseteq Names \cup Inputs
 \* no derivation depends on itself
-C17_Acyclic == n \notin AllDeps(cur)
+C17_Acyclic == cur \notin AllDeps(cur)
 \* domain separation: every derivation has a separating literal and no two share it
 C17_TagsDistinct == DomainLit(cur) # "" /\ \A m \in Names \ {cur} : DomainLit(m) # DomainLit(cur)
 \* lengths: keys / storage indexes / salts are 16 bytes, secrets and hashes 32; and a derived value
